@@ -21,6 +21,10 @@ declare -A ALSO=(
   [C07-ws-read-loop-message-hoisted]="C11"
   [C16-mutators-run-in-reverse-order]="C03"
   [C10-cache-before-validation-recover-hook]="C03"
+  [C03-post-release-keeps-variables]="C07"
+  [C15-post-params-released-twice]="C07"
+  [C15-selection-narrows-cached-document]="C03"
+  [C02-bindargs-schema-order-index]="C17"
 )
 echo "# Seeded changes vs. the checks ($tier tier, $(date -u +%FT%TZ), /repo $(git -C /repo log --format=%h -1))" > $out
 echo >> $out
